@@ -175,7 +175,7 @@ func c11Model(c *ctx, pool *c11Pool, cases []c11Case, outs []c11Outcome) {
 			d.add("c11.tbi %s", hexs(k.bytes()))
 			impl = append(impl, c11ImplLine(o, o.Canon))
 			res.hist("model:tabix.ReadFrom:" + o.D)
-		case "cram.definition", "cram.Container", "cram.Block", "cram.Block.Value":
+		case "cram.definition", "cram.Container", "cram.Block", "cram.Block.Value", "cram.Block.Value/rawsize":
 			if line, ok := c11CramModelLine(d, k, o); ok {
 				impl = append(impl, line)
 				res.hist("model:" + k.Decoder + ":" + o.D)
